@@ -83,6 +83,57 @@ CHECKS = {
             "packages: every version 1..255, every foreign suite id (binary+JSON), embedded primitives replaced by catalogue entries, bit flips of fixed-layout packages.",
             "frostref.py decoders define validity (RFC 9591 §6, RFC 8032, RFC 9496, SEC1 compressed only). postcard trailing bytes / over-long varints on variable-layout packages are out of the claim.",
             "DESIGN.md §4 C12"),
+    "C13": ("fault_enumeration",
+            "crash-point enumeration: every subset of round boundaries x both encodings, resume-vs-uninterrupted byte comparison; real process restarts in the thorough tier",
+            "For generated runs of DKG, DKG refresh, dealer refresh, signing (preprocess batches) and repair, every subset of the interrupted participant's round boundaries is used as crash points: "
+            "the whole local state is encoded (postcard and JSON), dropped and decoded, and all later outputs must be byte-identical to the uninterrupted execution under the same tapes. "
+            "Thorough: state written to files by one process and continued by a fresh process.",
+            "Determinism of parts 2/3, sign and aggregate; part 1 / commit run under identical recorded tapes in both executions.",
+            "DESIGN.md §4 C13"),
+    "C14": ("exploration",
+            "structure-aware mutation testing (proptest) of all decoders and 22 protocol entry points + corpus replay; coverage-guided libFuzzer campaigns (cargo-fuzz) in the thorough tier",
+            "No-panic oracle (overflow checks and debug assertions on) with semantic side oracles (accepted encodings round-trip, Ok(signature) verifies, Ok(key material) consistent) over mutated "
+            "encodings of every wire type (binary+JSON, splices across types and suites, count inflation) and over mutation scripts applied to cached honest transcripts for every entry point that "
+            "consumes peer material. The same bodies are the libFuzzer targets fz_decode and fz_proto.",
+            "Not finding a panic is not proof of absence. The caller's own secret state is honest, as the property states.",
+            "DESIGN.md §4 C14, §2.5"),
+    "C15": ("exploration",
+            "property-based testing with a recording byte-stream RNG, differential against the RFC nonce_generate reference, metamorphic single-draw perturbation",
+            "For generated shares, tapes (random, constant, period 32/64) and commit/preprocess sequences: exactly 64 fresh stream bytes per pair, each nonce equals the reference's "
+            "H3(32 bytes || share), commitments equal G*nonce; perturbing the bytes of one nonce changes exactly that nonce, another share changes all, random tapes give pairwise distinct non-zero nonces.",
+            "frostref.py nonce_generate (pinned to RFC vectors); the grouping of RNG calls is not constrained, only the bytes consumed.",
+            "DESIGN.md §4 C15"),
+    "C16": ("exploration",
+            "property-based testing with a recording RNG: reproducibility, whole-tape sensitivity and per-draw perturbation (independence matrix) over all 10 RNG-taking entry points",
+            "Each entry point is run under a recorded tape, again under the same tape (bit-identical), under a disjoint tape (every secret-derived public value changes) and once per recorded draw with "
+            "only that draw changed: every value changes under some single draw, no single draw changes two values that must be independent; values are pairwise distinct; draws >= secrets.",
+            "Secrets are observed through derived public values; order/granularity of RNG calls is not fixed; batch blinders are observed through the draw log and C19.",
+            "DESIGN.md §4 C16"),
+    "C17": ("exploration",
+            "property-based testing of re-randomized signing with tamper enumeration over the seed and every commitment field; C04 model reused",
+            "Generated sessions in three randomizer modes: participant/coordinator parameter agreement, randomized key = key + alpha*G, validity under the randomized key only (library + independent "
+            "verifiers), randomizer equals the reference hash of seed || commitment list and changes under every seed/commitment/identifier tampering, tampered participant is exactly the culprit, "
+            "cheater model and threshold refusals hold under randomization.",
+            "Reference randomizer hash uses the implementation family's 'randomizer' domain separation (not in RFC 9591).",
+            "DESIGN.md §4 C17"),
+    "C18": ("exploration",
+            "property-based testing with forced coverage of all 8 parity triples x 4 merkle-root classes x 2 key sources; independent BIP-340/341 oracles",
+            "Every (internal key parity, output key parity, group commitment parity) triple is constructed by re-seeding; the 64-byte signature must verify under x(Q) with libsecp256k1 and the Python "
+            "BIP-340 verifier, Q from the reference's taproot_tweak_pubkey, and not under x(P); tweak keeps packages consistent; the C04 cheater model holds in every triple; DKG keys are the key-path-only tweak.",
+            "libsecp256k1 and frostref.py (BIP-340 vectors) are trusted.",
+            "DESIGN.md §4 C18"),
+    "C19": ("exploration",
+            "property-based testing of batch verification against the per-item oracle incl. crafted cancelling pairs",
+            "Generated batches (size 0..64, shared/distinct keys and messages) with invalid items of six kinds at generated positions and complementary pairs whose errors cancel in an unblinded sum: "
+            "Verifier::verify must be Ok iff every item verifies individually; empty batch rejected; Item::verify_single agrees with ordinary and independent verification.",
+            "The ~2^-128 soundness error is taken on faith (a wrongly accepted batch is re-run under a second tape before being reported).",
+            "DESIGN.md §4 C19"),
+    "C20": ("exploration",
+            "property-based testing with an allocator wrapper that snapshots freed heap blocks (with a mandatory positive control), zeroize checks and a debug-output leak scanner (with control)",
+            "For every secret-bearing type from generated runs: after drop no limb of any secret scalar is present in the blocks freed; the control (same bytes freed without destructor) must show every "
+            "limb or the run is void; explicit zeroize leaves zero; {:?}/{:#?} contain no hex/decimal/limb encoding of any secret (scanner validated by a positive control).",
+            "Heap only, optimised build; registers/stack copies are not observable. SigningShare is Copy (no destructor): zeroize and debug only.",
+            "DESIGN.md §4 C20"),
 }
 
 NOT_APPLICABLE = {}
@@ -122,6 +173,8 @@ def main():
         "engines": [
             {"name": "fv", "path": "/verif/harness", "serves_properties": [c["property_id"] for c in checks],
              "kind_free_text": "Rust harness: proptest generators + shrinking, stratified/sharded runner, reference-model oracles, Python RFC reference over a pipe"},
+            {"name": "fv-fuzz", "path": "/verif/fuzz", "serves_properties": ["C14"],
+             "kind_free_text": "cargo-fuzz / libFuzzer targets fz_decode and fz_proto whose bodies (with the semantic oracles inside) live in harness/src/fuzz_entry.rs; seed corpus in /verif/corpus"},
         ],
         "checks": checks,
         "notes": "See DESIGN.md. Exit codes: 0 held, 1 violation (VIOLATION line + replay file), 2 inconclusive/harness problem (never a violation).",
